@@ -19,12 +19,14 @@ INSERT INTO A VALUES (2, 'two', 20);
 INSERT INTO B VALUES (7, 1);
 INSERT INTO B VALUES (8, 0);
 INSERT INTO Inferred VALUES (5, 'x');
+INSERT INTO Named (b, a) VALUES ('x', 5);
 '''
 T1 = '''INSERT INTO A VALUES (3, 'three', 30);
 INSERT INTO B VALUES (9, 3);
 CREATE TABLE C (Id UNIQUE_ID);
 INSERT INTO C VALUES (4);
 INSERT INTO Inferred VALUES (6, 'y');
+INSERT INTO Named (a, b) VALUES (6, 'y');
 '''
 MUTS = ['write', 'new', 'delete', 'relate', 'unrelate', 'append_attr', 'delete_attr', 'define_id',
         'define_class', 'write_id']
@@ -39,7 +41,7 @@ def mutate(m, u):
     b = m.select_many('B')
     if name == 'write':
         a.first.Name = 'changed'
-        if m.find_metaclass('A').attribute_type('N'):
+        if (m.find_metaclass('A').attribute_type('N') or '').upper() == 'INTEGER':
             a.first.N = 77
     elif name == 'write_id':
         a.last.Id = 55
@@ -63,6 +65,9 @@ def mutate(m, u):
                 inst.Extra = True
     elif name == 'delete_attr':
         m.find_metaclass('A').delete_attribute('N')
+        m.find_metaclass('A').append_attribute('N', 'string')          # re-added with another type
+        for inst in a:
+            inst.N = 'n' 
     elif name == 'define_id':
         m.define_unique_identifier('B', 9, 'Id')
     elif name == 'define_class':
@@ -72,7 +77,9 @@ def mutate(m, u):
 
 
 def snap(m):
-    return xtuml.serialize(m)
+    # serialised model + the declared type of some attributes as the metaclasses report it
+    types = [(k, n, mc.attribute_type(n)) for k, mc in sorted(m.metaclasses.items()) for n in ('Id', 'Name', 'N', 'Extra', 'a', 'b')]
+    return xtuml.serialize(m), types
 
 
 def check(si: int) -> bool:
@@ -107,7 +114,7 @@ def check(si: int) -> bool:
                 text = T1
             elif not any('CREATE TABLE Inferred' in t for t in accepted):
                 # an explicit definition of a class that earlier builds had to infer from its rows
-                text = "CREATE TABLE Inferred (a INTEGER, b STRING);\nINSERT INTO A VALUES (%d, 'more', 0);\n" % (10 + len(accepted))
+                text = "CREATE TABLE Inferred (a INTEGER, b STRING);\nCREATE TABLE Named (A REAL, B STRING, c BOOLEAN);\nINSERT INTO A VALUES (%d, 'more', 0);\n" % (10 + len(accepted))
             else:
                 text = "INSERT INTO A VALUES (%d, 'more', 0);\n" % (10 + len(accepted))
             with notrace():
